@@ -339,13 +339,20 @@ func (segstore *SegStore) GetBaseDir() string {
 
 // For some types we use a bloom index and for others we use range indices. If
 // a column has both, we should convert all the values to one type.
-func consolidateColumnTypes(wipBlock *WipBlock, segmentKey string) error {
+// The rewritten records no longer have the sizes that were recorded while
+// ingesting, so the segment-level constant record size of such a column is
+// marked inconsistent in allSeenColumnSizes.
+func consolidateColumnTypes(wipBlock *WipBlock, segmentKey string, allSeenColumnSizes map[string]uint32) error {
 	for colName := range wipBlock.columnsInBlock {
 		// Check if this column has both a bloom and a range index.
 		_, ok1 := wipBlock.columnBlooms[colName]
 		_, ok2 := wipBlock.columnRangeIndexes[colName]
 		if !(ok1 && ok2) {
 			continue
+		}
+
+		if allSeenColumnSizes != nil {
+			allSeenColumnSizes[colName] = sutils.INCONSISTENT_CVAL_SIZE
 		}
 
 		// Try converting this column to numbers, but if that fails convert it to
@@ -530,7 +537,7 @@ func (segstore *SegStore) AppendWipToSegfile(streamid string, forceRotate bool, 
 	// If there's columns that had both strings and numbers in them, we need to
 	// try converting them all to numbers, but if that doesn't work we'll
 	// convert them all to strings.
-	err := consolidateColumnTypes(&segstore.wipBlock, segstore.SegmentKey)
+	err := consolidateColumnTypes(&segstore.wipBlock, segstore.SegmentKey, segstore.AllSeenColumnSizes)
 	if err != nil {
 		log.Errorf("AppendWipToSegfile: error consolidating column types; err=%v", err)
 		return err
